@@ -12,6 +12,27 @@ from harness.common import deep_compare, err_kind, frac
 PID = "C08"
 DISABLED = True
 THEOREMS = [
+    "PorepyVerif.C08.set_refines",
+    "PorepyVerif.C08.add_refines",
+    "PorepyVerif.C08.shift_refines",
+    "PorepyVerif.C08.shift_refines_deque",
+    "PorepyVerif.C08.step_refines",
+    "PorepyVerif.C08.store_refines_window",
+    "PorepyVerif.C08.store_refines_window_from_empty",
+    "PorepyVerif.C08.window_ith_varying",
+    "PorepyVerif.C08.window_ith",
+    "PorepyVerif.C08.window_additive",
+    "PorepyVerif.C08.add_empty_rejected",
+    "PorepyVerif.C08.add_present",
+    "PorepyVerif.C08.get_does_not_modify",
+    "PorepyVerif.C08.get_empty_errors",
+    "PorepyVerif.C08.shift_keyError_iff",
+    "PorepyVerif.C08.shift_keeps_index_zero",
+    "PorepyVerif.C08.noncontiguous_shift_errors",
+    "PorepyVerif.C08.dget_dput",
+    "PorepyVerif.C08.data_set_is_store_step",
+    "PorepyVerif.C08.data_get_is_store_step",
+    "PorepyVerif.C08.data_shift_is_store_step",
 ]
 LEAN_MODULES = ["PorepyVerif.C08.Props"]
 AUDIT = "PorepyVerif/C08/Audit.lean"
@@ -147,7 +168,7 @@ def gen_case(rng, tier):
                     ops.append({"op": "es_get", "vars": _gen_selector(rng, names), "ts": idx2[0], "it": idx2[1], "keep": keep()})
                 else:
                     ops.append({"op": "get", "name": rng.choice(names), "ts": idx2[0], "it": idx2[1], "keep": keep()})
-        return dict(case, ops=ops[:60])
+        return dict(case, ops=ops[:40])
 
     nops = rng.randint(3, nmax)
     for k in range(nops):
@@ -384,9 +405,14 @@ class _RefStore:
         self.known = {}
 
     def lose(self):
-        if not self.irregular:
-            self.irregular = True
+        self.irregular = True
         self.known = {}
+
+    def demote(self):
+        """an unspecified slot turned out to be empty: from now on only the individually known slots are specified"""
+        if not self.irregular:
+            self.known = {j: x for j, x in enumerate(self.w) if x is not STALE}
+            self.irregular = True
 
     def set(self, i, v):
         if self.irregular:
@@ -408,8 +434,9 @@ class _RefStore:
                 return ("ok",)
             return ("unknown",)
         if i < len(self.w):
-            if self.w[i] is not STALE:
-                self.w[i] = [a + b for a, b in zip(self.w[i], v)]
+            if self.w[i] is STALE:
+                return ("unknown",)  # a slot beyond the depth: whether it still exists is not specified
+            self.w[i] = [a + b for a, b in zip(self.w[i], v)]
             return ("ok",)
         return ("err", "ValueError")
 
@@ -417,7 +444,7 @@ class _RefStore:
         if self.irregular:
             return ("val", self.known[i]) if i in self.known else ("unknown",)
         if i < len(self.w):
-            return ("val", self.w[i]) if self.w[i] is not STALE else ("someval",)
+            return ("val", self.w[i]) if self.w[i] is not STALE else ("unknown",)
         return ("err", "KeyError")
 
     def shift(self, m):
@@ -484,17 +511,6 @@ def _fail(what, key):
     return {"what": what, "key": key}
 
 
-def _judge(k, op, sub, exps, outcome, stores_after):
-    """compare the outcome of one helper-level call (or the part of an equation-system call) with the expectation.
-    returns (failure | None, error_expected: bool, uncertain: bool)"""
-    for e in exps:
-        if e[0] == "err":
-            return None, e[1], False
-        if e[0] in ("unknown", "invalid", "nochange"):
-            return None, None, True
-    return None, None, False
-
-
 def oracle(case):
     im = _Impl(case)
     ref = _Ref()
@@ -515,12 +531,14 @@ def oracle(case):
             errs = [e for e in exps if e[0] == "err"]
             if bad:
                 uncertain = True
-                if is_err and len(subs) > 1:
+                if is_err and any(e[0] == "unknown" for e in bad):
+                    # (invalid arguments / negative max_index change nothing; only "unknown" may hide a state change)
+                    for loc in (TS, IT):
+                        ref.st(loc, sub["name"]).demote()
                     # we cannot tell which helper call raised: nothing is specified any more for the remaining stores
-                    for later in subs[j:]:
+                    for later in subs[j + 1:]:
                         for loc in (TS, IT):
                             ref.st(loc, later["name"]).lose()
-                    break
                 if is_err:
                     break
                 continue
